@@ -292,16 +292,33 @@ def k_bag(run, case, rng, work):
     given = gen.read_views(tr)
     frame = ["map", "", "odom_ü", "base link"][rng.integers(4)]
     path = os.path.join(work, "b%d.bag" % case["rs"][-1])
+    # further trajectories exported to other topics of the same bag, with other frame ids and
+    # other (earlier / later) time spans: each topic must be read back on its own
+    others = []
+    if rng.random() < .5:
+        for k in range(int(rng.integers(1, 3))):
+            o_tr = make_traj(rng, int(rng.integers(1, 30)), "ordinary", "xyzq", True)
+            o_tr.timestamps = o_tr.timestamps - o_tr.timestamps[0] + max(1.0, float(given["t"][0]) + float(rng.uniform(-50, 50)))
+            others.append(("/other_%d" % k, ["world", "odom", "cam0"][k], o_tr, gen.read_views(o_tr)))
     w = Writer(path)
     w.open()
     try:
-        fi.write_bag_trajectory(w, tr, "/traj", frame_id=frame)
+        order = [("/traj", frame, tr)] + [(t, f, o) for t, f, o, _ in others]
+        for topic, fr, obj in (order if rng.random() < .5 else order[::-1]):
+            fi.write_bag_trajectory(w, obj, topic, frame_id=fr)
     finally:
         w.close()
     r = Reader(path)
     r.open()
     try:
         back = fi.read_bag_trajectory(r, "/traj")
+        for topic, fr, _, ov in others:
+            ob = fi.read_bag_trajectory(r, topic)
+            obv = gen.read_views(ob)
+            run.check(ob.meta.get("frame_id") == fr and same_bits(obv["p"], ov["p"]) and same_bits(obv["q"], ov["q"]),
+                      "bag: every topic of a multi-topic bag is read back on its own", case,
+                      "topic %s of a bag with %d topics: frame id %r -> %r / poses changed" %
+                      (topic, 1 + len(others), fr, ob.meta.get("frame_id")), key="bag:multi-topic")
         ts = get_typestore(Stores.ROS1_NOETIC)
         raw = []
         for conn, _, data in r.messages(connections=[c for c in r.connections if c.topic == "/traj"]):
@@ -309,7 +326,7 @@ def k_bag(run, case, rng, work):
             raw.append((int(msg.header.stamp.sec), int(msg.header.stamp.nanosec)))
     finally:
         r.close()
-    run.seen(case, core.digest(given["p"], given["t"], frame), cls=["ros1 bag", "stamps:" + cls],
+    run.seen(case, core.digest(given["p"], given["t"], frame, len(others)), cls=["ros1 bag", "stamps:" + cls, "bag topics: %d" % (1 + len(others))],
              sample={"n": n, "stamps": cls, "frame_id": frame, "t_head": given["t"][:3]})
     b = gen.read_views(back)
     run.check(same_bits(b["p"], given["p"]), "bag: positions exact", case, "bag export changed a position",
